@@ -7,6 +7,7 @@ package arp
 // C13 / C11: ARP-cache stage. A failed request passes through unchanged (no lookup, same cause); otherwise the
 // MAC is looked up for THIS request's destination address: found -> DstMAC set, no error; not found -> error.
 //@ func (*cacheReqGenerator).GenerateRequests$1
+//@   locals request: *github.com/v-byte-cpu/sx/pkg/scan.Request ;; mac: net.HardwareAddr
 //@   props C13 C11 C07 C05 C01 C12 C02 C17
 //@   observe getMAC
 //@   loop 0 row closed:  [recv requests as (rq, false) ; close result] -> exit
@@ -52,6 +53,7 @@ package arp
 //@   entry row get: [call RLock(_) ; call String(ip) as (k) ; call RUnlock(_)] when (mapin(c.cache, k) ==> ret == mapget(c.cache, k)) && (!mapin(c.cache, k) ==> ret == nil) -> exit
 //@ func NewCacheRequestGenerator$1
 //@   sig ip
+//@   locals mac: net.HardwareAddr
 //@   props C11 C05 C01 C07 C13 C12 C02 C17
 //@   observe Get
 //@   entry row cached:  [call Get(cache, ip) as (mac)] when mac != nil && ret == mac -> exit
@@ -69,6 +71,7 @@ package arp
 //@   ensures ret == nil ==> v.IP == ite(ahasip(data), aip(data), old(v.IP)) && v.MAC == ite(ahasmac(data), amac(data), old(v.MAC))
 //@ func FillCache
 //@   sig cache, r
+//@   locals scanner: *bufio.Scanner ;; entry: ScanResult ;; err: error ;; ip: net.IP ;; mac: net.HardwareAddr ;; err: error
 //@   props C11 C05 C01 C07 C13 C12 C02 C17
 //@   observe (*bufio.Scanner).Scan, (*bufio.Scanner).Bytes, (*bufio.Scanner).Err, UnmarshalJSON, net.ParseIP, net.ParseMAC, Put
 //@   loop 0 row eof:     [call Scan(_) as (more) ; call Err(_) as (e)] when !more && ret == e -> exit
@@ -125,6 +128,7 @@ package arp
 // layers, and keeps gopacket's panic recovery on (a decoder panic surfaces as an error, never as a crash)
 //@ func NewScanMethod
 //@   sig psrc, results
+//@   locals sm: *ScanMethod ;; parser: *github.com/google/gopacket.DecodingLayerParser
 //@   props C06 C03 C14 C16 C20
 //@   observe gopacket.NewDecodingLayerParser
 //@   entry row parser: [call gopacket.NewDecodingLayerParser(layers.LayerTypeEthernet, bind_ds) as (p)]
@@ -135,6 +139,7 @@ package arp
 // error is passed on with no stream; otherwise one worker bound to exactly that stream and the returned channel
 //@ func (*cacheReqGenerator).GenerateRequests
 //@   sig g, ctx, r
+//@   locals requests: <-chan *github.com/v-byte-cpu/sx/pkg/scan.Request ;; err: error ;; result: chan *github.com/v-byte-cpu/sx/pkg/scan.Request
 //@   props C13 C11 C07 C12 C05 C01 C02 C17
 //@   observe GenerateRequests
 //@   entry row generr: [call GenerateRequests(g.reqgen, ctx, r) as (rs, e)] when e != nil && ret0 == nil && ret1 == e -> exit
